@@ -101,6 +101,27 @@ def structural_mutation(rng, wj):
     return "unchanged", False, w
 
 
+
+def instantiated_lists(f, kind):
+    """the model lists of a slab / fault that the constructor instantiates for this kind: a segment without its own list takes the
+    list of its section when the section has one, else the feature's; lists nobody takes are never instantiated (never checked)"""
+    out = []
+    segs = f.get("segments", [])
+    secs = f.get("sections", [])
+    use_feature = any(kind not in sg for sg in segs)
+    for sc in secs:
+        ssegs = sc.get("segments", [])
+        if any(kind not in sg for sg in ssegs):
+            if kind in sc:
+                out.append(sc[kind])
+            else:
+                use_feature = True
+        out += [sg[kind] for sg in ssegs if kind in sg]
+    out += [sg[kind] for sg in segs if kind in sg]
+    if use_feature and kind in f:
+        out.append(f[kind])
+    return out
+
 def length_mismatch(rng, wj):
     """schema-valid documents whose parallel lists have different lengths: must be rejected"""
     w = copy.deepcopy(wj)
@@ -116,29 +137,30 @@ def length_mismatch(rng, wj):
                         if len(m.get(k, [])) >= 2:
                             cands.append((m, k, "gaussian plume temperature list '%s'" % k))
         line = f["model"] in ("subducting plate", "fault")
-        allsegs = (f.get("segments", []) + [sg for sc in f.get("sections", []) for sg in sc["segments"]]) if line else []
-        for kind in ("composition models",):
-            if line and all(kind in sg for sg in allsegs):
-                continue        # feature-level models that no segment inherits are never instantiated
-            for m in f.get(kind, []):
+
+        def lists(kind):
+            return instantiated_lists(f, kind) if line else [f.get(kind, [])]
+        for ms in lists("composition models"):
+            for m in ms:
                 if m.get("model") == "uniform" and "fractions" in m and len(m["fractions"]) >= 1:
                     cands.append((m, "fractions", "uniform composition 'fractions' vs 'compositions'"))
-        for m in ([] if (line and all("grains models" in sg for sg in allsegs)) else f.get("grains models", [])):
-            for k in ("rotation matrices", "grain sizes"):
-                if k in m and len(m[k]) >= 1 and m.get("model") == "uniform":
-                    cands.append((m, k, "uniform grains '%s' vs 'compositions'" % k))
-        for m in f.get("temperature models", []):
-            if m.get("model") in ("plate model", "half space model") and "ridge coordinates" in m and isinstance(m.get("spreading velocity"), list):
-                cands.append((m, "spreading velocity", "spreading velocity list vs ridge coordinates"))
-        if f["model"] in ("subducting plate", "fault") and f.get("sections"):
+                if m.get("model") == "smooth" and line:
+                    for k in (("center fractions", "side fractions") if f["model"] == "fault" else ("top fractions", "bottom fractions")):
+                        if k in m and len(m[k]) >= 1:
+                            cands.append((m, k, "smooth composition '%s' vs 'compositions'" % k))
+        for ms in lists("grains models"):
+            for m in ms:
+                for k in ("rotation matrices", "grain sizes"):
+                    if k in m and len(m[k]) >= 1 and m.get("model") == "uniform":
+                        cands.append((m, k, "uniform grains '%s' vs 'compositions'" % k))
+        for ms in lists("temperature models"):
+            for m in ms:
+                if m.get("model") in ("plate model", "half space model") and "ridge coordinates" in m and isinstance(m.get("spreading velocity"), list):
+                    cands.append((m, "spreading velocity", "spreading velocity list vs ridge coordinates"))
+                if f["model"] == "subducting plate" and m.get("model") == "mass conserving" and m.get("ridge coordinates"):
+                    cands.append((m, "subducting velocity table", "subducting velocity table that does not have the shape of the ridge coordinates"))
+        if line and f.get("sections"):
             cands.append((f["sections"][0], "segments", "section with a different number of segments than the feature"))
-        if f["model"] == "subducting plate":
-            segs_ = f.get("segments", []) + [sg for sc in f.get("sections", []) for sg in sc["segments"]]
-            lists_ = ([] if all("temperature models" in sg for sg in segs_) else [f.get("temperature models", [])]) + [sg.get("temperature models", []) for sg in segs_]
-            for ms_ in lists_:
-                for m in ms_:
-                    if m.get("model") == "mass conserving" and m.get("ridge coordinates"):
-                        cands.append((m, "subducting velocity table", "subducting velocity table that does not have the shape of the ridge coordinates"))
     if not cands:
         return None
     c, k, what = rng.choice(cands)
@@ -199,6 +221,9 @@ def signatures(wj):
         name = m.get("model")
         if kind == "composition models" and name == "uniform":
             sigs.append("SigFractions (%s, %s)" % (_nat(L(m, "compositions")), _nat(L(m, "fractions", 1))))
+        elif kind == "composition models" and name == "smooth" and fmodel in ("subducting plate", "fault"):
+            a_, b_ = ("center fractions", "side fractions") if fmodel == "fault" else ("top fractions", "bottom fractions")
+            sigs.append("SigSmooth (%s, %s, %s)" % (_nat(L(m, "compositions")), _nat(L(m, a_, 1)), _nat(L(m, b_, 1))))
         elif kind == "grains models" and name == "uniform":
             sigs.append("SigGrainsUniform (%s, %s, %s)" % (_nat(L(m, "compositions")), _nat(one_of(m, "Euler angles z-x-z", "rotation matrices")),
                                                            _nat(L(m, "grain sizes"))))
@@ -261,18 +286,12 @@ def signatures(wj):
                 if not isinstance(sc.get("coordinate", 0), int):
                     raise NotExtractable("coordinate")
                 sigs.append("SigSection (%s, %s, %s, %s)" % (_nat(L(f, "coordinates")), _nat(sc.get("coordinate", 0)), _nat(len(segs)), _nat(len(sc.get("segments", [])))))
-            allsegs = segs + [sg for sc in secs for sg in sc.get("segments", [])]
             for kind in kinds:
-                # a list written at feature or section level is only instantiated when a segment inherits it
-                if not all(kind in sg for sg in allsegs):
-                    for m in f.get(kind, []):
-                        model_sigs(kind, m, fm)
-                for sc in secs:
-                    if kind in sc and not all(kind in sg for sg in sc.get("segments", [])):
-                        for m in sc.get(kind, []):
-                            model_sigs(kind, m, fm)
-                for sg in allsegs:
-                    for m in sg.get(kind, []):
+                # a list written at feature or section level is only instantiated when a segment takes it
+                for ms in instantiated_lists(f, kind):
+                    if not isinstance(ms, list):
+                        raise NotExtractable(kind)
+                    for m in ms:
                         model_sigs(kind, m, fm)
         else:
             for kind in kinds:
